@@ -276,6 +276,8 @@ ItemScs(nmax) == {ItemSc(n, a) : n \in 0..nmax, a \in (-nmax - 2)..(nmax + 2)}
 SliceScs(nmax, steps) == UNION {{SliceSc(n, a, b, s) : a \in Bounds(n), b \in Bounds(n), s \in steps} : n \in 0..nmax}
 \* equality: pool objects 1, 2 = "call", 3 = "uni" (valid in every position of every kind)
 EqScs(len) == {EqSc(k1, i1, k2, i2) : k1 \in SeqKinds, k2 \in SeqKinds, i1 \in Seqs(1..3, 1, len), i2 \in Seqs(1..3, 1, len)}
+EqScsThorough == {EqSc(k1, i1, k2, i2) : k1 \in SeqKinds, k2 \in SeqKinds,
+                    i1 \in {<<1>>, <<3>>, <<1, 2>>, <<1, 3>>, <<1, 2, 3>>, <<3, 1, 1>>}, i2 \in Seqs(1..3, 1, 3)}
 EqScsQuick == {EqSc(k1, i1, k2, i2) : k1 \in SeqKinds, k2 \in SeqKinds,
                  i1 \in {<<1>>, <<3>>, <<1, 2>>, <<1, 3>>}, i2 \in Seqs(1..3, 1, 2)}
 \* trees
@@ -311,7 +313,7 @@ ClassScs(len) ==
                                   els \in Seqs({"call", "fc", "fr", "run", "fcr"}, 0, 2)} : StructExc(c.kind, c.els) = ""}
 ScQuickRaw == BuildQuick \cup ItemScs(3) \cup SliceScs(3, {None, 1, 2, -1}) \cup EqScsQuick \cup TreeScs(TreesQuick) \cup ClassScs(2)
 ScQuick == TLCEval(ScQuickRaw)      \* evaluated once, not lazily at every use
-ScThoroughRaw == BuildThorough \cup ItemScs(5) \cup SliceScs(5, {None, 1, 2, 3, -1, -2}) \cup EqScs(3)
+ScThoroughRaw == BuildThorough \cup ItemScs(5) \cup SliceScs(5, {None, 1, 2, 3, -1, -2}) \cup EqScsThorough
               \cup TreeScs(TreesThorough) \cup ClassScs(3)
 ScThorough == TLCEval(ScThoroughRaw)      \* evaluated once, not lazily at every use
 
